@@ -99,6 +99,7 @@ def run(ctx):
     o4(ctx, F)
     o5(ctx, F)
     o6b(ctx, F)
+    o8(ctx, F, roles["search"])
     o7(ctx, F)
 
 
@@ -413,3 +414,41 @@ def o6b(ctx, F):
                   what="`%s` must be refused while a search is running (a second search / a position change under the running search "
                        "breaks the one-bestmove-per-go pairing)" % cmd, expected="only in the else-branch of `if search_is_running.load()`",
                   found=found)
+
+
+def o8(ctx, F, sfn):
+    """The search thread takes the Data lock once and finishes with the game (including forgetting it) before it releases the lock:
+    otherwise a `position` sent right after `bestmove` can be applied first and then wiped by the late `current_game = None`.
+    And nothing reachable from the search thread takes the stdout lock for longer than one print (isready must be answerable)."""
+    cfg = mir.Cfg(sfn)
+    locks = cfg.calls(lambda c, t: c.endswith("Mutex::<T>::lock"))
+    ctx.check("C14.O8", "search-thread-locks-the-data-once", len(locks) == 1, fn=sfn["path"], file=sfn["file"],
+              what="the search thread must take the Data mutex exactly once, for the whole of its work on the game",
+              expected=1, found=len(locks))
+    # writes to Data.current_game inside the closure must happen while the guard of that single lock is live
+    guards = {i for i, l in enumerate(cfg.locals) if l["ty"].startswith("std::sync::MutexGuard<")}
+    drops = [b for b in range(cfg.n) if cfg.blocks[b]["term"]["k"] == "Drop" and not cfg.blocks[b]["term"]["place"].get("p")
+             and cfg.blocks[b]["term"]["place"]["l"] in guards]
+    after_drop = set()
+    for d in drops:
+        after_drop |= cfg.reach_from_succs(d)
+    resets = []
+    for b in range(cfg.n):
+        for s in cfg.blocks[b]["stmts"]:
+            if s["k"] == "Assign" and s["place"].get("ty", "").startswith("std::option::Option<chess::Game>"):
+                resets.append(b)
+        t = cfg.blocks[b]["term"]
+        if t["k"] == "Drop" and t["place"].get("ty", "").startswith("std::option::Option<chess::Game>") and t["place"].get("p"):
+            resets.append(b)
+    late = sorted(set(r for r in resets if r in after_drop))
+    ctx.check("C14.O8", "game-forgotten-before-the-lock-is-released", bool(resets) and not late and len(locks) == 1, fn=sfn["path"], file=sfn["file"],
+              what="the search thread clears the session's game after it has released (and re-taken) the Data lock: a `position` command that "
+                   "arrives right after `bestmove` is applied in between and then wiped, so the following `go` fails with 'No game to play'",
+              expected="current_game reset while the guard taken before the search is still live",
+              found={"resets": len(resets), "after guard drop": len(late), "locks": len(locks)})
+    g = mir.callgraph(F)
+    reach = mir.reachable_fns(g, sfn["path"])
+    so = sorted(c for c in reach if "Stdout" in c and c.endswith("::lock"))
+    ctx.check("C14.O5", "search-thread-never-holds-the-stdout-lock", not so, fn=sfn["path"], file=sfn["file"],
+              what="code reachable from the search thread takes the stdout lock explicitly: while it is held `isready` (answered by the stdin "
+                   "thread with println!) blocks until the search ends", found=so)
